@@ -68,24 +68,30 @@ pub async fn run_case(certs: &Certs, c: &Case) -> Outcome {
             tokio::time::sleep(Duration::from_millis(1)).await;
         }
     });
-    // registrations for brand-new topics keep arriving from several connections
+    // registrations for brand-new topics keep arriving, many at a time, from several
+    // connections: the topic map is being extended at the very moment the signal arrives
     let mut flooders = vec![];
     for fc in 0..(c.flood_conns % 4) {
         let id2 = match RawIdentity::from_certs(certs) { Ok(i) => i, Err(_) => break };
-        flooders.push(tokio::spawn(async move {
-            let Ok(conn) = raw_connect(addr, &id2).await else { return };
-            let mut held = vec![];
-            for k in 0..4000u32 {
-                let f = if k % 2 == 0 { reg_sub("c16flood", &format!("t-{fc}-{k}")) } else { reg_req("c16flood", &format!("t-{fc}-{k}")) };
-                match raw_open(&conn, f, Duration::from_millis(300)).await {
-                    Ok((s, _)) => held.push(s),
-                    Err(_) => break,
+        let Ok(conn) = raw_connect(addr, &id2).await else { break };
+        for lane in 0..40u32 {
+            let conn = conn.clone();
+            flooders.push(tokio::spawn(async move {
+                for k in 0..2000u32 {
+                    let name = format!("t-{fc}-{lane}-{k}");
+                    // publisher registrations: the server drops its unused send half at once and
+                    // its receive half as soon as our end is reset, so the stream credit of the
+                    // connection is recycled and the flood keeps going
+                    let f = reg_pub("c16flood", &name);
+                    match raw_open(&conn, f, Duration::from_millis(200)).await {
+                        Ok((mut s, _)) => {
+                            let _ = s.write().reset(quinn::VarInt::from_u32(0));
+                        }
+                        Err(_) => break,
+                    }
                 }
-                if held.len() > 80 {
-                    held.drain(..40);
-                }
-            }
-        }));
+            }));
+        }
     }
     tokio::time::sleep(Duration::from_millis(20 + (c.delay_ms % 60) as u64)).await;
     // the signal the server's listen() loop waits for (tokio's ctrl_c handler replaces the
